@@ -61,6 +61,8 @@ pub enum OpKind {
     RoomData,
     /// pull the room from the prepared peer (synchronised batches)
     Pull,
+    /// pull, from the prepared peer, a room this node has never seen (its definition is written by the batch writer)
+    PullNewRoom,
     /// mutation stream with two mutations, then closed
     Stream,
 }
@@ -109,6 +111,8 @@ struct Ctx {
     cfg: Cfg,
     room: Uid,
     room_b64: String,
+    /// a room created by the prepared peer that node A has never seen
+    room2: Uid,
     recs: Vec<OpRec>,
     armed: Option<(String, u64, String)>,
     fault_fired: bool,
@@ -214,10 +218,12 @@ pub fn generate(seed: u64, property: &str, thorough: bool) -> Trace {
             steps.push(Step::Arm { site: site.to_string(), hit: 1 + rf.below(3), kind: kind.to_string() });
             let m = marker;
             marker += 3;
-            steps.push(Step::One { op: Op { kind: OpKind::Pull, marker: m }, dt: 1000 });
+            let new_room = rf.chance(1, 2);
+            let kind = |nr: bool| if nr { OpKind::PullNewRoom } else { OpKind::Pull };
+            steps.push(Step::One { op: Op { kind: kind(new_room), marker: m }, dt: 1000 });
             steps.push(Step::One { op: gen_op(&mut rw, &mut marker, &mut multis, &mut used), dt: gen_dt(&mut rw) });
             steps.push(Step::Probe { marker: m + 1 });
-            steps.push(Step::One { op: Op { kind: OpKind::Pull, marker: m + 2 }, dt: 1000 });
+            steps.push(Step::One { op: Op { kind: kind(new_room), marker: m + 2 }, dt: 1000 });
             let m2 = marker;
             marker += 1;
             steps.push(Step::Probe { marker: m2 });
@@ -327,6 +333,20 @@ pub fn directed(property: &str) -> Vec<Trace> {
                     Step::Probe { marker: 6 },
                 ],
             ));
+            for (site, kind) in [("stmt_edge", "error_once"), ("before_commit", "error_once"), ("after_msg", "crash")] {
+                out.push(mk(
+                    &format!("C13 {kind} at {site} while the definition of a room never seen is written, then a fault-free request, then the pull again"),
+                    vec![
+                        Step::One { op: multi(1), dt: 1 },
+                        Step::Arm { site: site.into(), hit: 1, kind: kind.into() },
+                        Step::One { op: Op { kind: OpKind::PullNewRoom, marker: 2 }, dt: 1000 },
+                        Step::One { op: multi(3), dt: 1000 },
+                        Step::Probe { marker: 4 },
+                        Step::One { op: Op { kind: OpKind::PullNewRoom, marker: 5 }, dt: 1000 },
+                        Step::Probe { marker: 6 },
+                    ],
+                ));
+            }
             out.push(mk(
                 "C13 statement error inside a deletion, then a fault-free request",
                 vec![
@@ -381,6 +401,7 @@ pub fn execute(trace: &Trace, keep_log: bool) -> (crate::kit::RunReport, Vec<Str
         cfg,
         room: [0; 16],
         room_b64: String::new(),
+        room2: [0; 16],
         recs: vec![],
         armed: None,
         fault_fired: false,
@@ -464,6 +485,20 @@ fn setup(c: &mut Ctx) -> Result<(), String> {
         let p = serde_json::json!({"r": c.room_b64, "n": format!("peer-{i}-p"), "c": format!("peer-{i}-pet")}).to_string();
         c.w.nodes[1].mutate("mutate { Person{ room_id:$r name:$n pet:{name:$c} } }", Some(&p))?;
     }
+    // a room of the prepared peer's own, with one row: node A learns it by PullNewRoom only
+    c.now += 1;
+    sync_clocks(c);
+    let q = format!(
+        r#"mutate {{ sys.Room{{ admin:[{{verif_key:"{kb}"}}] authorisations:[{{ name:"all" rights:[{{entity:"Person" mutate_self:true mutate_all:true}},{{entity:"Pet" mutate_self:true mutate_all:true}}] users:[{{verif_key:"{ka}"}},{{verif_key:"{kb}"}}] }}] }} }}"#
+    );
+    let r = c.w.nodes[1].mutate(&q, None)?;
+    let v: serde_json::Value = serde_json::from_str(&r).map_err(|e| e.to_string())?;
+    let id2 = v["sys.Room"]["id"].as_str().ok_or("no room id")?.to_string();
+    c.room2 = dv::uid_decode(&id2).map_err(|e| e.to_string())?;
+    c.now += 1;
+    sync_clocks(c);
+    let p = serde_json::json!({"r": id2, "n": "peer-room2-p"}).to_string();
+    c.w.nodes[1].mutate("mutate { Person{ room_id:$r name:$n } }", Some(&p))?;
     let _ = c.w.nodes[0].drain_events();
     let _ = c.w.nodes[1].drain_events();
     dv::reset_fault_counters();
@@ -598,7 +633,7 @@ fn issue(c: &mut Ctx, op: &Op) -> Result<JoinHandle<Result<Option<String>, Strin
                 res
             })
         }
-        OpKind::Pull => return Err("pull".into()),
+        OpKind::Pull | OpKind::PullNewRoom => return Err("pull".into()),
     };
     Ok(h)
 }
@@ -680,8 +715,8 @@ fn run_ops(c: &mut Ctx, ops: &[Op], grouped: bool, with_compute: bool) -> Result
     let day = day_of(c.now);
     let step = c.w.step_no;
     // pulls run alone (they are a session, not a request)
-    if ops.len() == 1 && matches!(ops[0].kind, OpKind::Pull) {
-        let room = c.room;
+    if ops.len() == 1 && matches!(ops[0].kind, OpKind::Pull | OpKind::PullNewRoom) {
+        let room = if matches!(ops[0].kind, OpKind::Pull) { c.room } else { c.room2 };
         let (a, b) = c.w.two(0, 1);
         let r = net::pull(a, b, room, None);
         let ack = match r {
@@ -713,7 +748,7 @@ fn run_ops(c: &mut Ctx, ops: &[Op], grouped: bool, with_compute: bool) -> Result
     }
     let mut handles = vec![];
     for op in ops {
-        if matches!(op.kind, OpKind::Pull) {
+        if matches!(op.kind, OpKind::Pull | OpKind::PullNewRoom) {
             continue;
         }
         match issue(c, op) {
@@ -795,6 +830,7 @@ fn kind_s(k: &OpKind) -> &'static str {
         OpKind::RoomGroup => "roomgroup",
         OpKind::RoomData => "room-and-data",
         OpKind::Pull => "pull",
+        OpKind::PullNewRoom => "pull-new-room",
         OpKind::Stream => "stream",
     }
 }
@@ -816,7 +852,7 @@ fn exec_step(c: &mut Ctx, st: &Step) -> Result<(), String> {
         Step::Group { ops, dt, with_compute } => {
             c.now += dt.max(&0);
             sync_clocks(c);
-            let (pulls, rest): (Vec<Op>, Vec<Op>) = ops.iter().cloned().partition(|o| matches!(o.kind, OpKind::Pull));
+            let (pulls, rest): (Vec<Op>, Vec<Op>) = ops.iter().cloned().partition(|o| matches!(o.kind, OpKind::Pull | OpKind::PullNewRoom));
             if !rest.is_empty() {
                 run_ops(c, &rest, true, *with_compute)?;
             }
@@ -1060,12 +1096,32 @@ fn check_c13(c: &mut Ctx, at: &str) -> Result<(), String> {
             c.w.violation("C13", "acked-lost/synchronised-batch", format!("at {at}: a pull completed Ok but none of the peer's {ent} rows is visible"));
         }
     }
+    // the room learnt from the peer is known in memory exactly when its definition is stored
+    {
+        let auth = c.w.nodes[0].dbh().auth.clone();
+        let uid = c.room2;
+        let in_memory = c.w.nodes[0]
+            .run(async move {
+                let (tx, rx) = tokio::sync::oneshot::channel();
+                let _ = auth.send(dv::AuthorisationMessage::VerifGetRoom(uid, tx)).await;
+                rx.await.ok().flatten().is_some()
+            })
+            .map_err(|e| format!("{e:?}"))?;
+        let stored = dv::RoomNode::read(&c.w.nodes[0].oracle_conn()?, &c.room2).map_err(|e| e.to_string())?.is_some();
+        if in_memory != stored {
+            c.w.violation("C13", "partial-operation/synchronised-room-definition", format!("at {at}: the room received from the peer is known in memory: {in_memory}, stored: {stored}"));
+        }
+        let acked = c.recs.iter().any(|r| matches!(r.op.kind, OpKind::PullNewRoom) && r.ack == Ack::Ok);
+        if acked && !stored {
+            c.w.violation("C13", "acked-lost/synchronised-room-definition", format!("at {at}: a pull of the new room completed Ok but its definition is not stored"));
+        }
+    }
     // the references of the prepared peer (one per row, all written the same day) arrive in one batch too: all or none,
     // whether or not the rows they start from have arrived yet
     {
         let conn = c.w.nodes[0].oracle_conn()?;
         let peer_key = c.w.nodes[1].vk.clone();
-        let n: i64 = conn.query_row("SELECT count(*) FROM _edge WHERE verifying_key = ?1", [peer_key], |r| r.get(0)).map_err(|e| e.to_string())?;
+        let n: i64 = conn.query_row("SELECT count(*) FROM _edge WHERE verifying_key = ?1 AND src_entity = '0'", [peer_key], |r| r.get(0)).map_err(|e| e.to_string())?;
         if n != 0 && n as usize != c.cfg.peer_rows {
             c.w.violation("C13", "partial-operation/synchronised-references", format!("at {at}: {n}/{} references of one synchronised batch are stored", c.cfg.peer_rows));
         }
@@ -1131,7 +1187,7 @@ fn check_c18(c: &mut Ctx) -> Result<(), String> {
             OpKind::Update { .. } | OpKind::Delete { .. } | OpKind::RefDel { .. } => {
                 need.push((room.clone(), "Person".into(), day));
             }
-            OpKind::Pull => {}
+            OpKind::Pull | OpKind::PullNewRoom => {}
             OpKind::NewRoom => {
                 c.w.probe("c18_room_change");
                 let rid = id.clone().unwrap_or_default();
